@@ -141,6 +141,9 @@ def c02(ctx):
     p = ctx.prod()
     exe = ctx.harness("h_aead-prod-shared", "h_aead.c", None, cc="gcc", ldflags=["-L" + p["sodir"], "-ltinyjambu", "-Wl,-rpath," + p["sodir"]])
     ctx.run_jobs(batch_jobs(ctx, exe, "prod-cmake-Release-shared", ["--mode", "model", "--p1", W, "--p2", 1, "--p3", 4], 4))
+    # 2^32+5 and 2^31+3 byte messages in place, ciphertext and tag compared with the streaming model (thorough; the quick
+    # tier runs the same code scaled to 2^22+5 / 2^21+3 bytes)
+    run_harness_on(ctx, "h_aead.c", build_set(ctx, ["prod"]), ["--mode", "rt,hugemsg", "--p3", ctx.q(22, 0)], 3, hname="h_aead-hugemsg", timeout=6000)
     if ctx.thorough:
         # AD of 2^32+7 bytes for all six variants: relational oracle against length truncation / ignored bytes
         run_harness_on(ctx, "h_aead.c", build_set(ctx, ["prod"]), ["--mode", "model,hugead"], 6, hname="h_aead-huge", timeout=5000)
@@ -165,6 +168,8 @@ def c03(ctx):
     if ctx.thorough:
         # AD extended / truncated by exactly 2^32 bytes must be rejected (a 32-bit length somewhere would accept it)
         run_harness_on(ctx, "h_aead.c", build_set(ctx, ["prod"]), ["--mode", "tamper,hugetamper"], 3, hname="h_aead-huge", timeout=5000)
+    # a forged packet of 2^32+16+8 bytes opened in place: rejected, all plaintext bytes zero (quick: scaled to 2^22+16)
+    run_harness_on(ctx, "h_aead.c", build_set(ctx, ["prod"]), ["--mode", "tamper,hugereject", "--p3", ctx.q(22, 0)], 3, hname="h_aead-hugerej", timeout=6000)
     abi.ilp32_monitor(ctx, ['aead'])
     ctx.rule = AEAD_RULE + (" Per packet: valid, forged-valid (random body + model tag must be ACCEPTED), 64 tag bit flips, every "
                             "non-zero XOR delta in every tag byte, cancellation patterns (XOR-fold / additive / reversed / rotated / complemented-but-one), "
@@ -187,10 +192,13 @@ def c04(ctx):
     # dense length sweep 0..300 on the production object: one tag flip per length per variant
     run_harness_on(ctx, "h_aead.c", build_set(ctx, ["prod"]), ["--mode", "zero,both,sweep", "--p1", 0, "--p2", 1, "--p3", ctx.q(300, 4000)], 8,
                    hname="h_aead-sweep")
+    # a forged packet with a 2^32+16 byte body opened in place: every plaintext byte zero afterwards (quick: scaled to 2^22+16)
+    run_harness_on(ctx, "h_aead.c", build_set(ctx, ["prod"]), ["--mode", "zero,hugereject", "--p3", ctx.q(22, 0)], 3, hname="h_aead-hugerej", timeout=6000)
+    run_harness_on(ctx, "h_aead.c", build_set(ctx, ["prod"]), ["--mode", "zero,siv,hugereject", "--p3", ctx.q(22, 0)], 3, hname="h_aead-hugerej", timeout=8000)
     abi.ilp32_monitor(ctx, ['aead', 'siv'])
     ctx.rule = AEAD_RULE + (" All 6 variants; per packet up to 12 tamper sites (each tag byte, body, nonce, key, AD length), in place and "
                             "out of place, output region pre-filled with recorded non-zero junk; after every rejection every byte of "
-                            "m[0..clen-8) is read back and must be zero; long packets up to 1 MiB (thorough: 16 MiB).")
+                            "m[0..clen-8) is read back and must be zero; long packets up to 1 MiB (thorough: 16 MiB); one forged packet per variant with a 2^32+16 byte body (thorough; quick: 2^22+16) opened in place, whole buffer read back.")
     ctx.rule += ' Supplementary ILP32 monitor: the portable sources compiled with gcc/clang -m32 (4-byte size_t, pointers and long; freestanding runtime, every buffer against a PROT_NONE page) and the production archive run the same deterministic case list (harness/h_abi.c, section aead/siv) as the model; the outputs are compared line by line.'
     ctx.exhaustive = False
 
@@ -210,7 +218,8 @@ def c08(ctx):
     if ctx.thorough:
         run_harness_on(ctx, "h_aead.c", build_set(ctx, ["prod"]), ["--mode", "tamper,siv,hugetamper"], 3, hname="h_aead-huge", timeout=5000)
         # SIV round trip of 2^32+5 and 2^31+3 byte messages in place (two passes each way: ~5 minutes per case)
-        run_harness_on(ctx, "h_aead.c", build_set(ctx, ["prod"]), ["--mode", "rt,siv,hugemsg"], 3, hname="h_aead-huge", timeout=6000)
+        run_harness_on(ctx, "h_aead.c", build_set(ctx, ["prod"]), ["--mode", "rt,siv,hugemsg"], 3, hname="h_aead-huge", timeout=8000)
+    run_harness_on(ctx, "h_aead.c", build_set(ctx, ["prod"]), ["--mode", "tamper,siv,hugereject", "--p3", ctx.q(22, 0)], 3, hname="h_aead-hugerej", timeout=8000)
     abi.ilp32_monitor(ctx, ['siv'])
     ctx.rule = AEAD_RULE + (" SIV variants. Round-trip battery (incl. in place) + tamper battery where every expected verdict comes from "
                             "the model of the SIV construction for arbitrary bodies and tags (a changed tag changes keystream and expected tag), "
@@ -228,6 +237,7 @@ def c09(ctx):
     W, R, NL = ctx.q((32, 3, 16), (70, 10, 150))
     builds = build_set(ctx, ctx.q(["prod", "gcc-O2", "clang-O3", "gcc-Os", "gcc-O2+D__BIG_ENDIAN__@nobzero", "gcc-O3+DNDEBUG+DTINYJAMBU_FORCE_C32", "asan-gcc"], ["prod"] + MATRIX + MATRIX_X + ["asan-gcc", "asan-clang"]))
     run_harness_on(ctx, "h_aead.c", builds, ["--mode", "model,pairs,siv", "--p1", W, "--p2", R, "--p3", NL], ctx.q(4, 16))
+    run_harness_on(ctx, "h_aead.c", build_set(ctx, ["prod"]), ["--mode", "rt,siv,hugemsg", "--p3", ctx.q(22, 0)], 3, hname="h_aead-hugemsg", timeout=8000)
     # positive control: the same pair generator through plain AEAD must show related bodies
     run_harness_on(ctx, "h_aead.c", build_set(ctx, ["prod"]), ["--mode", "pairs", "--p1", W, "--p2", 1, "--p3", 0], 2, hname="h_aead-ctl")
     if not ctx.replay and ctx.stats.get("aead_control_pairs_related", 0) < 50:
@@ -389,11 +399,13 @@ def c11(ctx):
     N, NZ, NR = ctx.q((14, 9, 3000), (20, 11, 60000))
     builds = build_set(ctx, ctx.q(["prod", "clang-O2", "gcc-O3+DNDEBUG+DTINYJAMBU_FORCE_C32", "gcc-O2+D__BIG_ENDIAN__@nobzero", "asan-gcc", "msan"], ["prod", "gcc-O0", "gcc-Os", "clang-O2", "clang-O3", "clang-Os", "gcc-O3+DNDEBUG", "clang-O3+DNDEBUG", "gcc-O2+DTINYJAMBU_FORCE_C32", "clang-O2+DTINYJAMBU_FORCE_C32", "gcc-O2+funsigned-char", "asan-gcc", "asan-clang", "msan"]))
     run_hash(ctx, builds, ["--mode", "stream", "--p1", N, "--p2", NZ, "--p3", NR], 16, "h_hash-s")
+    if ctx.thorough:
+        run_hash_huge(ctx, builds[0], [2, 3])
     abi.ilp32_monitor(ctx, ['hash'])
     ctx.rule = ("(a) ALL 2^(n-1) compositions of every length n <= N into update calls (exhaustive), state object pre-filled with junk; "
                 "(b) for n <= NZ the same with a zero-length update (NULL, then non-NULL) at every gap; (c) random chunkings of messages up to 8 KiB "
                 "with sizes from {0..18,30..33,47..49,63..65,100,1000}; (d) random interleaved histories of init/reinit/update/finalize/free/overwrite-with-"
-                "stale-copy over 4 state objects, each judged against a shadow concatenation (one-shot + model). class = (n, composition mask) or history index.")
+                "stale-copy over 4 state objects, each judged against a shadow concatenation (one-shot + model); thorough: update(7) + update(2^32+46) and update(5) + update(2^32+3) against the same bytes fed in pieces below 2^32. class = (n, composition mask) or history index.")
     ctx.rule += ' Supplementary ILP32 monitor: the portable sources compiled with gcc/clang -m32 (4-byte size_t, pointers and long; freestanding runtime, every buffer against a PROT_NONE page) and the production archive run the same deterministic case list (harness/h_abi.c, section hash) as the model; the outputs are compared line by line.'
     ctx.exhaustive = False
     ctx.extra_cov["exhaustive_subspace"] = "all compositions of n <= %d (sum 2^(n-1) = %d sequences) on every build" % (N, 2 ** N - 1)
@@ -521,6 +533,9 @@ def c17(ctx):
     NR = ctx.q(300, 100000)
     builds = build_set(ctx, ctx.q(["prod", "clang-O2", "gcc-O3+DNDEBUG+DTINYJAMBU_FORCE_C32", "gcc-O2+D__BIG_ENDIAN__@nobzero", "asan-gcc", "msan"], ["prod", "gcc-O0", "gcc-O2", "gcc-Os", "clang-O2", "clang-O3", "clang-Os", "gcc-O3+DNDEBUG", "clang-O3+DNDEBUG", "gcc-O2+DTINYJAMBU_FORCE_C32", "clang-O2+DTINYJAMBU_FORCE_C32", "gcc-O2+funsigned-char", "asan-gcc", "asan-clang", "msan"]))
     run_harness_on(ctx, "h_prng.c", builds, ["--mode", "faults", "--p3", NR], 16, timeout=3000, hname="h_prng-f")
+    if ctx.thorough:
+        # personalisation string of 2^32+5 bytes: status, request count, output against the model (minutes)
+        run_harness_on(ctx, "h_prng.c", builds[:1], ["--mode", "hugecustom"], 1, timeout=3000, hname="h_prng-f")
     if not ctx.replay and ctx.stats.get("null_callback_child_runs", 0) < 6:
         ctx.inconclusive.append("NULL-callback child runs did not all execute")
     abi.ilp32_monitor(ctx, ['prng'])
